@@ -167,10 +167,12 @@ pub fn property(_ctx: &Ctx) -> Property {
     Property {
         id: "C19",
         level: "exploration",
-        rule: "(ids) proptest multi-replica histories in which later actors sort before earlier ones; for every replica: every object id (bytes via ObjId::try_from, string via import), cursor (After/Before at several positions, Start, End; bytes and string), actor id (hex, bytes) and change hash (string, bytes) must decode to an equal value; a decoded object id / cursor used in the merged document (different actor table) must resolve to the same object (type, hydrate) / element (the position whose native cursor equals it). (sync) every message of a generated 3-peer session satisfies decode(encode(m)) == m with identical re-encoding; every persisted State keeps shared_heads, re-encodes identically and has its session fields reset. Non-trivial = the id's actor index differs between the two documents (ids), >=4 message/state round trips (sync); distinct by case.",
+        rule: "(ids) proptest multi-replica histories in which later actors sort before earlier ones; for every replica: every object id (bytes via ObjId::try_from, string via import), cursor (After/Before at several positions, Start, End; bytes and string), actor id (hex, bytes) and change hash (string, bytes) must decode to an equal value; a decoded object id / cursor used in the merged document (different actor table) must resolve to the same object (type, hydrate) / element (the position whose native cursor equals it). (sync) every message of a generated 3-peer session satisfies decode(encode(m)) == m with identical re-encoding; every persisted State keeps shared_heads, re-encodes identically and has its session fields reset. (resolve-across-documents) the C30 oracle: ids remembered at creation and ids handed out by the merged document resolve, in every replica / the merged / the reloaded document that contains the object, to the same reads and edits as that document's own ids (signatures C30:*). Non-trivial = the id's actor index differs between the two documents (ids), >=4 message/state round trips (sync); distinct by case.",
         assumptions: &["ExId equality ignores the actor-index hint (by design)"],
         subs: vec![
             sub::<Case, _, _>("ids", 3200, 80000, |c| (program_strategy(HISTORY, if c.thorough() { 80 } else { 35 }, 4, 4), any::<u64>()), check_ids),
+            // ids handed out by one document resolved in documents with other (also smaller) actor tables: C30's oracle
+            sub::<Case, _, _>("resolve-across-documents", 800, 20000, |c| (program_strategy(HISTORY, if c.thorough() { 80 } else { 35 }, 4, 4), any::<u64>()), super::c29::check_c30),
             sub::<NCase, _, _>("sync", 3200, 80000, |c| (program_strategy(HISTORY, if c.thorough() { 50 } else { 20 }, 3, 4), prop::collection::vec((any::<u8>(), any::<u8>(), any::<u8>(), any::<u8>()), 0..40)), check_sync),
         ],
     }
